@@ -5,6 +5,7 @@ import (
 	"fmt"
 	"math"
 	"math/bits"
+	"sort"
 	"strconv"
 	"strings"
 
@@ -1659,7 +1660,7 @@ func isPartialConstructorName(name string) bool {
 		return c >= '2' && c <= '4'
 	}
 	// mat2x2, mat2x3, ..., mat4x4
-	if (len(name) == 6 && isMatTypeName(name)) {
+	if len(name) == 6 && isMatTypeName(name) {
 		return name[3] >= '2' && name[3] <= '4' && name[5] >= '2' && name[5] <= '4'
 	}
 	// array (bare array constructor)
@@ -7913,7 +7914,7 @@ func (l *Lowerer) isMatrixScalarConstruct(cons *parser.ConstructExpr) bool {
 	}
 	name := nt.Name
 	// Check for matNxM or matNxMf patterns
-	isMatrix := ((len(name) == 6 && isMatTypeName(name))) ||
+	isMatrix := (len(name) == 6 && isMatTypeName(name)) ||
 		(len(name) == 7 && name[:3] == "mat" && name[4] == 'x' && (name[6] == 'f' || name[6] == 'h'))
 	if !isMatrix || len(cons.Args) < 4 {
 		return false
@@ -10357,7 +10358,7 @@ func (l *Lowerer) inferConstructorTypeFromScalar(namedType *parser.NamedType, sc
 	// Matrix constructors: mat2x2, mat2x3, mat3x4, etc. (matCxR = 6 chars, skip 5-char names)
 	// WGSL spec: matrix element types are always floating-point.
 	// When scalars are inferred as int (from abstract int args), force to f32.
-	if (len(name) == 6 && isMatTypeName(name)) {
+	if len(name) == 6 && isMatTypeName(name) {
 		cols := name[3] - '0'
 		rows := name[5] - '0'
 		if cols >= 2 && cols <= 4 && rows >= 2 && rows <= 4 {
@@ -10568,7 +10569,7 @@ func (l *Lowerer) isBuiltinConstructor(name string) bool {
 	}
 	// matNxM where N,M are digits (e.g., mat2x2, mat4x3)
 	// NOT mat4x3f, mat2x2h — those are short aliases handled separately
-	if (len(name) == 6 && isMatTypeName(name)) {
+	if len(name) == 6 && isMatTypeName(name) {
 		return true
 	}
 	return name == "array"
@@ -13792,7 +13793,19 @@ func (l *Lowerer) registerUnusedLetBindings() {
 	if l.currentFunc == nil || l.currentFunc.NamedExpressions == nil {
 		return
 	}
-	for name, handle := range l.locals {
+	// Visit the bindings in a fixed order and keep the name a declaration already
+	// gave: several lets may alias one expression (let a = p; let b = p;) and map
+	// iteration order must not decide which name the module ends up with.
+	names := make([]string, 0, len(l.locals))
+	for name := range l.locals {
+		names = append(names, name)
+	}
+	sort.Strings(names)
+	for _, name := range names {
+		handle := l.locals[name]
+		if _, named := l.currentFunc.NamedExpressions[handle]; named {
+			continue
+		}
 		// Skip local const declarations — they are inlined, not named expressions.
 		// Matches Rust naga where local const is Declared::Const, not in named_expressions.
 		if l.localConsts[name] {
